@@ -5,12 +5,14 @@
 // build: g++ -std=c++17 -DDIMV=<1..4> -DPERIODICV=<0|1> -DORDERV=<0 morton|1 hilbert> -I/repo/src conf_grid.cpp
 // usage: conf_grid dump <height>            -> ndjson table on stdout
 //        conf_grid check <height> < records -> MISMATCH lines + SUMMARY
-// record (one per cell): l m c[Dim] parent childcode nIL il... nNB nb...
+// record (one per cell): l m c[Dim] parent childcode nIL il... nNB nb... nSH sh...
 //   il entry = srcIndex * 7^Dim + code7 ; nb entry = srcIndex * 3^Dim + code3
+//   sh entry (periodic leaf level only) = (srcIndex * 3^Dim + code3) * 3^Dim + enc3(image): the copy of the box the neighbour lives in
 #include "hcommon.hpp"
 #include "spacial/tbfmortonspaceindex.hpp"
 #include "spacial/tbfhilbertspaceindex.hpp"
 #include "spacial/tbfspacialconfiguration.hpp"
+#include "utils/tbfperiodicshifter.hpp"
 #include <optional>
 
 #ifndef DIMV
@@ -50,7 +52,9 @@ struct FakeGroup {
     }
 };
 
-struct CellExp { long l, m; std::array<long,Dim> c; long parent, cc; std::vector<long> il, nb; };
+struct CellExp { long l, m; std::array<long,Dim> c; long parent, cc; std::vector<long> il, nb, sh; };
+// leaf header as far as the periodic shifter reads it
+struct FakeLeafHeader { long spaceIndex; std::array<long,Dim> boxCoord; };
 
 static std::string key(long height, long l, long m){
     std::ostringstream os; os << kOrder << (Per ? "-per" : "") << "-d" << Dim << "-h" << height << "-l" << l << "-m" << m; return os.str();
@@ -126,7 +130,7 @@ int main(int argc, char** argv){
         while(std::getline(std::cin, line)){
             if(!r.parse(line)) continue;
             CellExp e; e.l = r.get(); e.m = r.get(); for(long d = 0; d < Dim; ++d) e.c[d] = r.get();
-            e.parent = r.get(); e.cc = r.get(); e.il = r.getList(); e.nb = r.getList();
+            e.parent = r.get(); e.cc = r.get(); e.il = r.getList(); e.nb = r.getList(); if(!r.done()) e.sh = r.getList();
             std::sort(e.il.begin(), e.il.end()); std::sort(e.nb.begin(), e.nb.end());
             cells[{e.l, e.m}] = e;
         }
@@ -185,6 +189,37 @@ int main(int argc, char** argv){
             for(long x : e.nb) if(!upper || (x % P3) > P3/2) exp.push_back(x / P3);
             std::sort(obs.begin(), obs.end()); std::sort(exp.begin(), exp.end());
             rep.eq("NeighbourListDef", k, vh::listStr(obs), vh::listStr(exp), upper ? "getNeighborListForIndex(upper)" : "getNeighborListForIndex");
+        }
+    }
+    // ---- periodic shifter (C10): which neighbours need a shift, by how many box widths, and the shifted copies of the positions
+    if constexpr(Per){
+        using Shifter = typename TbfPeriodicShifter<Real, Space>::Neighbor;
+        std::array<Real,Dim> aw, actr; for(long d = 0; d < Dim; ++d){ aw[d] = Real(1) + Real(0.5) * Real(d); actr[d] = Real(0.25) * Real(d) - Real(1); }   // anisotropic, off-centre, dyadic
+        const Conf aconf(height, aw, actr); const Space aspace(aconf);
+        for(auto& kv : cells){
+            const CellExp& e = kv.second; if(e.l != height - 1) continue;
+            const std::string k = key(height, e.l, e.m);
+            rep.ok("Shift", k, e.sh.size() == e.nb.size(), "specification printed no shift list for a periodic leaf");
+            for(long x : e.sh){
+                const long img = x % P3, code = (x / P3) % P3, src = x / P3 / P3;
+                FakeLeafHeader hs{src, aspace.getBoxPosFromIndex(src)}, ht{e.m, e.c};
+                long im[Dim]; { long c = img; for(long d = Dim-1; d >= 0; --d){ im[d] = (c % 3) - 1; c /= 3; } }
+                bool any = false; for(long d = 0; d < Dim; ++d) any = any || im[d] != 0;
+                rep.eq("Shift", k, (long)Shifter::NeedToShift(hs, ht, aspace, code), (long)any, "TbfPeriodicShifter::NeedToShift for neighbour code " + std::to_string(code));
+                const auto coef = Shifter::GetShiftCoef(hs, ht, aspace, code);
+                bool coefOk = true; for(long d = 0; d < Dim; ++d) coefOk = coefOk && coef[d] == Real(im[d]) * aw[d];
+                rep.ok("Shift", k, coefOk, "TbfPeriodicShifter::GetShiftCoef is not image * box width for neighbour code " + std::to_string(code));
+                // duplicated positions: Dim coordinates shifted, further values copied
+                constexpr long NV = Dim + 2; const long n = 3;
+                Real store[NV][3]; std::array<const Real*, NV> pos; for(long v = 0; v < NV; ++v){ for(long i = 0; i < n; ++i) store[v][i] = Real(0.125) * Real(1 + v * 5 + i * 3 + (src % 7)); pos[v] = store[v]; }
+                const auto dup = Shifter::DuplicatePositionsAndApplyShift(hs, ht, aspace, code, pos, n);
+                bool dupOk = true, fresh = true;
+                for(long v = 0; v < NV; ++v){ fresh = fresh && dup[v] != pos[v];
+                    for(long i = 0; i < n; ++i) dupOk = dupOk && dup[v][i] == store[v][i] + (v < Dim ? Real(im[v]) * aw[v] : Real(0)); }
+                rep.ok("Shift", k, dupOk, "TbfPeriodicShifter::DuplicatePositionsAndApplyShift: copies are not position + image * box width (values beyond the coordinates unchanged), code " + std::to_string(code));
+                rep.ok("Shift", k, fresh, "TbfPeriodicShifter::DuplicatePositionsAndApplyShift returned the caller's arrays");
+                Shifter::FreePositions(dup);
+            }
         }
     }
     // ---- per-group builders: single-cell groups, the full level, and a sparse group with gaps
